@@ -235,7 +235,7 @@ def oracle(ctx):
                 stale_root = {k: v for k, v in stale_root.items() if k in keep}
     ctx.stats["dispatched_steps"] = dispatched
     ctx.stats["dispatched_declared_optional"] = built_optional
-    # the Coq witness of C11_unneeded_step_dispatched_refuted_when_sink_only on the real code
+    # the Coq witness of C11_unneeded_step_dispatched_refuted_for_sink_only_trigger on the real code
     r = run(M.replay_d8(), timeout=60)
     ctx.case(("replay", "d8"), True)
     v1 = M.View(r["phase1_end"])
